@@ -436,3 +436,27 @@ func rtAuth(p, q *Auth) error {
 func decConnect(q *Connect, data []byte) error {
 	return q.UnmarshalBinary(data)
 }
+
+func rtPingReq(p, q *PingReq) error {
+	n := p.fill(_LEN, 0)
+	buf := make([]byte, n)
+	p.fill(buf, 0)
+	rl := vbint(specRemLen(n))
+	q.fixed = bits(buf[0])
+	if rl == 0 {
+		return nil
+	}
+	return q.UnmarshalBinary(buf[1+rl.width():])
+}
+
+func rtPingResp(p, q *PingResp) error {
+	n := p.fill(_LEN, 0)
+	buf := make([]byte, n)
+	p.fill(buf, 0)
+	rl := vbint(specRemLen(n))
+	q.fixed = bits(buf[0])
+	if rl == 0 {
+		return nil
+	}
+	return q.UnmarshalBinary(buf[1+rl.width():])
+}
